@@ -163,6 +163,26 @@ func runC12(p *core.Prog, r *core.Report) {
 			}
 		}
 	}
+	// the reader publishes nothing: what Contains computed under the read lock describes the filter at that moment; a
+	// remembered answer (a lookup cache in an atomic) outlives the lock and can be re-published after a writer changed
+	// the set and invalidated it
+	if cfn := fi.Methods["Contains"]; cfn != nil {
+		var wr []string
+		for _, f := range sx.WithClosures(p.Inl(cfn)) {
+			sx.Instrs(f, func(in ssa.Instruction) {
+				c, ok := in.(ssa.CallInstruction)
+				if !ok {
+					return
+				}
+				n := sx.CalleeName(c)
+				isAtomicWrite := (strings.HasPrefix(n, "(*sync/atomic.") && !strings.HasSuffix(n, ".Load")) || (strings.HasPrefix(n, "sync/atomic.") && !strings.HasPrefix(n, "sync/atomic.Load"))
+				if isAtomicWrite {
+					wr = append(wr, short(n)+" at "+p.Pos(in.Pos()))
+				}
+			})
+		}
+		r.Check(len(wr) == 0, "C12-R2", "Contains publishes nothing", p.FuncPos(cfn), "the reader only loads", "Contains writes shared state ("+strings.Join(wr, "; ")+"): a result computed before a concurrent Add/Remove can be stored after that writer finished and be served to later callers — Contains stays false after Add returned (or true after Remove)")
+	}
 	// every field that is read outside the lock must be atomic: a plain flag read before RLock is caught by R1 (it is then a guarded field)
 	if len(fi.Atomic) == 0 {
 		r.Fail("C12-R2", "match-all flag is atomic", "-", "IPv4Filter has no sync/atomic field: the lock-free match-all fast path would be a data race")
